@@ -208,12 +208,12 @@ int long register restrict return short signed sizeof static struct switch typed
 bool true false class new delete this template namespace private public protected virtual friend operator try catch
 throw using and or not xor asm export typename mutable explicit bitand bitor compl not_eq or_eq xor_eq and_eq nullptr
 constexpr decltype noexcept static_assert thread_local alignas alignof char16_t char32_t wchar_t int8_t int16_t
-int32_t int64_t uint8_t uint16_t uint32_t uint64_t size_t NULL m s ctx data fds descriptor field_descriptors main""".split())
+int32_t int64_t uint8_t uint16_t uint32_t uint64_t size_t NULL""".split())
 PY_RESERVED = set("""False None True and as assert async await break class continue def del elif else except finally
 for from global if import in is lambda nonlocal not or pass raise return try while with yield _
-self field json bp dataclass ClassVar Dict List Union IntEnum unique int bool str bytearray property isinstance
+field json bp dataclass ClassVar Dict List Union IntEnum unique int bool str bytearray property isinstance
 getattr range len BYTES_LENGTH encode decode bp_processor bp_set_byte bp_get_byte bp_get_accessor bp_process_int
-dict_factory to_dict to_json di b s ctx lshift rshift val kv_pairs""".split())
+dict_factory to_dict to_json""".split())
 GO_RESERVED_FIELDS = set("""Size String Encode Decode BpProcessor BpGetAccessor BpSetByte BpGetByte BpProcessInt""".split())
 
 
